@@ -300,6 +300,57 @@ class IntegerCodec(TypesBase):
         return "returns"
 
 
+class OidSubidCodec(TypesBase):
+    """x690 ObjectIdentifier.encode_large_value / decode_large_value verified FROM THE SITE-PACKAGES SOURCE: one sub-identifier
+    0 <= v < 2^35 (the property's 2^32 - 1 lies below) is written base-128, big-endian, in the least number of octets, bit 8 set
+    on every octet but the last, and decode_large_value reads it back. The loops (one `>> 7` per octet) are unrolled to the
+    operand width. The packing of the first two arcs (collapse_identifiers) is NOT covered here (findings D16 / D17 live there)."""
+    label = "proved (0 <= v < 2^35: loops unrolled to the operand width, unwinding complete)"
+    T_ENC = "x690.types:ObjectIdentifier.encode_large_value"
+    T_DEC = "x690.types:ObjectIdentifier.decode_large_value"
+
+    def __init__(self, props=("C05", "C06")):
+        self.target = self.T_ENC
+        self.functions = (self.T_ENC, self.T_DEC)
+        self.props = tuple(props)
+        self.name = "x690 OID sub-identifier codec[0 <= v < 2^35]"
+
+    def setup(self, rt, interp):
+        TypesBase.setup(self, rt, interp)
+        interp.unroll_limit = 12
+
+    def run(self, interp):
+        ctx, rt = interp.ctx, self.rt
+        v = ctx.fresh_int("v")
+        ctx.assume(And(v >= 0, v < 2 ** 35))
+        enc_f = get_func(rt, interp, self.T_ENC)
+        enc = interp.call(enc_f, [v], {})
+        items = getattr(enc, "items", enc)
+        ok = isinstance(items, list) and len(items) >= 1
+        for p in self.props:
+            ctx.check(oname(p, self.T_ENC, "ensures", "at-least-one-octet"), ok)
+        if not ok:
+            return "?"
+        n = len(items)
+        zs = [zint(b) for b in items]
+        in_range = And(*[And(b >= 0, b <= 255) for b in zs])
+        cont = And(*([b >= 128 for b in zs[:-1]] + [zs[-1] < 128]))
+        total = z3.IntVal(0)
+        for k, b in enumerate(zs):
+            total = total + (b % 128) * (128 ** (n - 1 - k))
+        minimal = True if n == 1 else zs[0] != 128
+        dec_f = get_func(rt, interp, self.T_DEC)
+        rest = stdlib.GenResult(list(items[1:]))
+        back = interp.call(dec_f, [items[0], rest], {})
+        for p in self.props:
+            ctx.check(oname(p, self.T_ENC, "ensures", "octets-in-range"), in_range)
+            ctx.check(oname(p, self.T_ENC, "ensures", "continuation-bit-on-all-but-last"), cont)
+            ctx.check(oname(p, self.T_ENC, "ensures", "base-128-big-endian-value"), total == zint(v))
+            ctx.check(oname(p, self.T_ENC, "ensures", "least-number-of-octets"), minimal)
+            ctx.check(oname(p, self.T_DEC, "ensures", "decode(encode(v))==v"), interp.eq(back, v))
+        return "returns"
+
+
 def units_codec(tier):
-    return [IntegerCodec("x690.types:Integer", True), IntegerCodec("puresnmp.types:Counter64", False),
+    return [OidSubidCodec(("C17", "C05", "C06")), IntegerCodec("x690.types:Integer", True), IntegerCodec("puresnmp.types:Counter64", False),
             IntegerCodec("puresnmp.types:Gauge", False), IntegerCodec("puresnmp.types:TimeTicks", False)]
